@@ -136,7 +136,10 @@ class InitialOrbitDetermination(ABC):
         Returns:
             ``bool``: whether or not obs are from the same pass
         """
-        sma = getSemiMajorAxis(norm(ob1_eci[:3]), norm(ob1_eci[3:]))
+        radius = norm(ob1_eci[:3])
+        # [NOTE]: A position-only vector carries no speed; assume a circular orbit as first approximation
+        #   instead of a zero speed (which would shrink the period to ~35% of its value).
+        sma = getSemiMajorAxis(radius, norm(ob1_eci[3:])) if len(ob1_eci) >= 6 else radius
         period = getPeriod(sma)
         transit_time = (ob2_jdate - ob1_jdate) * DAYS2SEC
         if transit_time >= period:
